@@ -228,6 +228,24 @@ def _conversions(cell, elems, ctx):
                               f"{type(b[1]).__name__} for stored {rows[0]}")
                         return
                     ctx.nontrivial(key=[cell["id"], pname, mom, rows[0]], sample={"conversion": pname, "stored": rows[0]})
+            # the keyword synonyms of the embeddings: every spelling of one coordinate gives the same vector, for ordinary
+            # values and for exactly zero (a given zero is a value, not an absent keyword)
+            if d < 4:
+                fams = [("t", "E", "e", "energy"), ("tau", "M", "m", "mass")] + ([("z", "pz")] if d < 3 else [])
+                for fam in fams:
+                    for val in (0, 0.0, 1.75, -2.5):
+                        outs = []
+                        for sp in fam:
+                            ctx.evaluation()
+                            meth = "to_Vector4D" if fam[0] in ("t", "tau") else "to_Vector3D"
+                            r = _call(lambda: getattr(v, meth)(**{sp: val}))
+                            outs.append((sp, r))
+                        base = outs[0][1]
+                        for sp, r in outs[1:]:
+                            if r[0] != base[0] or (r[0] == "ok" and _bits(r[1]) != _bits(base[1])):
+                                _fail(ctx, cell, "to_Vector4D" if fam[0] in ("t", "tau") else "to_Vector3D", "keyword_synonym",
+                                      f"{meth}({sp}={val!r}) gives {str(r[1])[:120]} but {meth}({fam[0]}={val!r}) gives {str(base[1])[:120]}")
+                                return
 
 
 def _flavor(cell, elems, ctx):
